@@ -322,13 +322,20 @@ class USBTokenDetector(Elaboratable):
                     with m.Else():
                         m.next = "IRRELEVANT"
 
+                        # A packet with a damaged PID could have been a token; make sure endpoints
+                        # don't attribute what follows to the previous token.
+                        with m.If(~is_valid_pid):
+                            m.d.usb += self.interface.pid.eq(0)
+
 
             with m.State("READ_TOKEN_0"):
 
                 # If our transaction stops, discard the current read state.
                 # We'll ignore token fragments, since it's impossible to tell
-                # if they were e.g. for us.
+                # if they were e.g. for us. We do know that the previous token no longer
+                # describes what's coming next; so endpoints must not act on it.
                 with m.If(~self.utmi.rx_active):
+                    m.d.usb += self.interface.pid.eq(0)
                     m.next = "IDLE"
 
                 # If we have a new byte, grab it, and move on to the next.
@@ -340,6 +347,7 @@ class USBTokenDetector(Elaboratable):
             with m.State("READ_TOKEN_1"):
 
                 with m.If(~self.utmi.rx_active):
+                    m.d.usb += self.interface.pid.eq(0)
                     m.next = "IDLE"
 
                 # Once we've just gotten the second core byte of our token,
@@ -354,8 +362,10 @@ class USBTokenDetector(Elaboratable):
                         m.next = "TOKEN_COMPLETE"
 
                     # ... otherwise, we'll ignore the whole token, as we can't tell
-                    # if this token was meant for us.
+                    # if this token was meant for us. Any data packet that follows belongs to this
+                    # unknown token, not to the previous one; so clear our token state.
                     with m.Else():
+                        m.d.usb += self.interface.pid.eq(0)
                         m.next = "IRRELEVANT"
 
             # TOKEN_COMPLETE: we've received a full token; and now need to wait
@@ -402,6 +412,7 @@ class USBTokenDetector(Elaboratable):
                 # Otherwise, if we get more data, we've received a malformed
                 # token -- which we'll ignore.
                 with m.Elif(self.utmi.rx_valid):
+                    m.d.usb += self.interface.pid.eq(0)
                     m.next="IRRELEVANT"
 
 
